@@ -6,9 +6,15 @@
         (exit data of every inner solver: tied per run by the C03/C05/C06 correspondences, gradient by C04)
      =>  dist(-(grad f(x_hat)+grad g(x_hat) y_hat), N_C(x_hat)) <= eps,  dist(g(x_hat), D) <= ||e||inf,  complementarity.           *)
 From Coq Require Import Reals List ZArith Bool Lra.
+(* first: the short names of these modules (params, apply, L_init, reachable, Inv, …) must not shadow Panoc's, which the statements below use *)
+From Alpaqa Require Import FistaLoop FistaLoopProofs FistaLen Pantr PantrProofs PantrLen.
+From Alpaqa Require Import Lbfgs.
 From Alpaqa Require Import Num NumR Vec Prox ProxProofs ProxVec SolverStatus SolverKernels SolverKernelsProofs KktProofs
      StopChain StopChainProofs Alm AlmProofs
-     AugLag AugLagProofs Panoc PanocProofs PanocLen AlmCompose AlmComposeProofs AlmPanoc AlmPanocProofs.
+     AugLag AugLagProofs Panoc PanocProofs PanocLen AlmCompose AlmComposeProofs AlmComposeKkt AlmPanoc AlmPanocProofs
+     ZeroFpr ZeroFprProofs ZeroFprLen AlmZeroFpr AlmZeroFprProofs
+     Directions PanocDir PanocDirProofs PanocDirLen AlmPanocDir AlmPanocDirProofs
+     AlmPantr AlmPantrProofs AlmFista AlmFistaProofs AlmPanocDirRefine.
 Import ListNotations.
 Local Open Scope R_scope.
 
@@ -216,3 +222,418 @@ Example C01_alm_panoc_nonvacuous :
     alm_panoc nvPb nvprov (fun _ => []) [Some 0] [Some 1] [] 0 nv_dir false nv_never nv_never (fun _ => false) nvPP nvAP 5 5 3 0 None [0] [0] = Some co /\
     f_status (co_final co) = Converged /\ co_x co = [0] /\ f_y (co_final co) = [0].
 Proof. exact (conj nv_hypotheses nv_converged). Qed.
+
+(* ================================================================================================================================
+   END-TO-END FOR THE OTHER INNER SOLVERS AND THE SHIPPED DEFAULT STACK.
+   (4) The part of (3) that only uses the inner contract is a GENERIC lemma over AlmCompose (AlmComposeKkt.v): for ANY inner solver
+   (a function W -> … -> option (inner_res * x * log * W)), if every call that ends Converged satisfies `inner_contract_kkt`
+     — x̂ = Π_C(x − γ∇) for n-vectors x, ∇ and γ > 0;  y = ŷ(x̂) [closed form of C04 for the (y, Σ) handed over];  err_z = (ŷ − y)/Σ;
+       ε = ‖p/γ + (∇f(x̂) + ∇g(x̂)ᵀŷ) − ∇‖∞;  ε <= the effective tolerance;  the primal buffer keeps length n after EVERY call —
+   then a Converged composed run returns an approximate KKT point of the user's problem.  (3) and (5)–(9) are its instances. *)
+Theorem C01_inner_contract_suffices :
+  forall (W Lg : Type)
+    (inner : W -> nat -> list R -> list R -> list R -> R -> list R -> option (inner_res (T:=R) * list R * Lg * W))
+    (Pb : problem (T:=R)) (Clb Cub : list (option R)) (split : nat) (AP : alm_params (T:=R)) (n m : nat),
+  length Clb = n -> length Cub = n -> Forall2 box_ne Clb Cub ->
+  (forall x, length x = n -> length (pgrad_f Pb x) = n) ->
+  (forall x y, length x = n -> length (pgrad_g_prod Pb x y) = n) ->
+  (forall x, length x = n -> length (pg Pb x) = m) ->
+  length (plb Pb) = m -> length (pub Pb) = m -> Forall2 box_ne (plb Pb) (pub Pb) ->
+  (* the inner contract *)
+  (forall w i x y Σ tol errz r x' lg w', length x = n ->
+     inner w i x y Σ tol errz = Some (r, x', lg, w') ->
+     length x' = n /\
+     (ir_status r = Converged ->
+        let yh := yhat_def Pb x' y Σ in
+        ir_y r = Some yh /\
+        ir_err r = Some (match errz with [] => [] | _ => vdiv (vsub yh y) Σ end) /\
+        exists (xx grad : list R) (γ : R),
+          let step := proj_grad_step Clb Cub γ xx grad in
+          0 < γ /\ length xx = n /\ length grad = n /\ x' = fst (fst step) /\
+          ir_eps r = vnorminf (kkt_residual γ (snd (fst step)) grad (grad_L_def Pb x' yh)) /\
+          ir_eps r <= eff_tol tol)) ->
+  forall (outer_fuel : nat) (nanv : R) (Σ0 : option (list R)) (y0 x0 : list R) (w0 : W) (co : cout W Lg),
+  length x0 = n -> length y0 = m ->
+  Alm.p_max_iter AP <> 0%nat ->
+  (m <> 0%nat -> sigma_inv AP m (initial_sigma AP m (pf Pb x0) (pg Pb x0) Σ0)) ->
+  (m = 0%nat -> 0 < p_tol AP) ->
+  c_run W Lg inner AP (kkt_pb Pb split) outer_fuel (pf Pb x0) (pg Pb x0) nanv Σ0 y0 x0 w0 = Some co ->
+  f_status (co_final co) = Converged ->
+  let x := co_x co in
+  let y := f_y (co_final co) in
+  length x = n /\ length y = m /\
+  (* x in C *)
+  (forall i, (i < n)%nat -> in_box (nth i Clb None) (nth i Cub None) (nth i x 0)) /\
+  (* stationarity: -(∇f(x) + ∇g(x) y) within `tolerance` (max norm) of the normal cone of C at x *)
+  (forall i, (i < n)%nat -> exists r,
+      (forall u, in_box (nth i Clb None) (nth i Cub None) u -> r * (u - nth i x 0) <= 0) /\
+      Rabs (- nth i (vadd (pgrad_f Pb x) (pgrad_g_prod Pb x y)) 0 - r) <= p_tol AP) /\
+  (* feasibility: dist∞(g(x), D) <= dual_tolerance *)
+  (forall i, (i < m)%nat -> exists z,
+      in_box (nth i (plb Pb) None) (nth i (pub Pb) None) z /\ Rabs (nth i (pg Pb x) 0 - z) <= p_dual_tol AP) /\
+  (* complementarity: y_i > 0 (< 0) only where g_i(x) is within dual_tolerance of its upper (lower) bound *)
+  (forall i, (i < m)%nat ->
+      (0 < nth i y 0 -> exists u, nth i (pub Pb) None = Some u /\ Rabs (nth i (pg Pb x) 0 - u) <= p_dual_tol AP) /\
+      (nth i y 0 < 0 -> exists l, nth i (plb Pb) None = Some l /\ Rabs (nth i (pg Pb x) 0 - l) <= p_dual_tol AP)).
+Proof. exact compose_converged_is_kkt. Qed.
+Print Assumptions C01_inner_contract_suffices.
+
+(* (5) ZeroFPR inner contract with dimensions (ZeroFprLen.v: length invariant of the ZeroFPR loop, structure of PanocLen.v) *)
+Theorem C01_zerofpr_inner_contract_with_dimensions :
+  forall (psi_grad_full : list R -> R * list R * list R) (psi_yhat : list R -> R * list R) (grad_L : list R -> list R -> list R)
+    (grad_psi : list R -> list R) (lb ub : list (option R)) (l1 : list R)
+    (dir_apply : nat -> iterate (T:=R) -> proxit (T:=R) -> option (list R))
+    (has_initial : bool) (stop_req time_up : counters -> bool) (P : Panoc.params (T:=R)) (x_in y_in Σ errz_in : list R) (ls_fuel n : nat),
+  l1 = [] -> length lb = n -> length ub = n -> length x_in = n ->
+  (forall x, length x = n -> length (snd (psi_grad psi_grad_full x)) = n) ->
+  (forall x yh, length x = n -> length (grad_L x yh) = n) ->
+  (forall j i px q, dir_apply j i px = Some q -> length q = n) ->
+  forall (fuel : nat) (o : outputs (T:=R)),
+  zerofpr psi_grad_full psi_yhat grad_L grad_psi lb ub l1 dir_apply has_initial stop_req time_up P x_in y_in Σ errz_in ls_fuel fuel = Done o ->
+  out_status o = StConverged -> p_crit P = ApproxKKT ->
+  exists (x grad : list R) (γ : R),
+    let step := proj_grad_step lb ub γ x grad in
+    let gradh := grad_L (out_x o) (out_y o) in
+    length x = n /\ length grad = n /\
+    out_x o = fst (fst step) /\ length (out_x o) = n /\
+    out_y o = snd (psi_yhat (out_x o)) /\
+    out_errz o = match errz_in with [] => [] | _ => vdiv (vsub (out_y o) y_in) Σ end /\
+    out_eps o = vnorminf (kkt_residual γ (snd (fst step)) grad gradh) /\
+    out_eps o <= eff_tol (o_tol P) /\
+    (0 < p_Lgamma P -> 0 < L_init psi_grad_full grad_psi P x_in -> 0 < γ).
+Proof. exact zerofpr_inner_contract_len. Qed.
+Print Assumptions C01_zerofpr_inner_contract_with_dimensions.
+
+(* (6) END-TO-END for ALMSolver<ZeroFPRSolver<Direction>> (AlmZeroFpr.alm_zerofpr; tied to the real stack by Corr_ALMSTACKS).
+   Hypotheses as in (3) — ZeroFPR reads the same PANOCParams-like record; it has no eager mode and its ∇ψ(x̂) is always
+   eval_grad_L(x̂, ŷ(x̂)), so nothing about eval_grad_ψ's output lengths is needed; the direction oracle (which also sees the prox iterate)
+   must return n-vectors. *)
+Theorem C01_alm_zerofpr_converged_is_kkt :
+  forall (Pb : problem (T:=R)) (prov : fn -> bool) (wm_supplied : list R -> list R) (Clb Cub : list (option R)) (l1 : list R)
+    (split : nat) (dir : nat -> iterate (T:=R) -> proxit (T:=R) -> option (list R)) (has_initial : bool) (stop_req time_up : counters -> bool)
+    (outer_oot : nat -> bool) (PP : Panoc.params (T:=R)) (AP : alm_params (T:=R)) (ls_fuel inner_fuel n m : nat),
+  provider_ok Pb prov ->
+  grad_g_prod_empty_ok Pb ->
+  l1 = [] ->
+  p_crit PP = ApproxKKT ->
+  0 < p_Lgamma PP ->
+  0 < p_L0 PP \/ 0 < p_Lmin PP <= p_Lmax PP ->
+  length Clb = n -> length Cub = n -> Forall2 box_ne Clb Cub ->
+  (forall x, length x = n -> length (pgrad_f Pb x) = n) ->
+  (forall x y, length x = n -> length (pgrad_g_prod Pb x y) = n) ->
+  (forall x, length x = n -> length (pg Pb x) = m) ->
+  length (plb Pb) = m -> length (pub Pb) = m -> Forall2 box_ne (plb Pb) (pub Pb) ->
+  (forall j i px q, dir j i px = Some q -> length q = n) ->
+  forall (outer_fuel : nat) (nanv : R) (Σ0 : option (list R)) (y0 x0 : list R) (co : cout counters (result (T:=R))),
+  length x0 = n -> length y0 = m ->
+  Alm.p_max_iter AP <> 0%nat ->
+  (m <> 0%nat -> sigma_inv AP m (initial_sigma AP m (pf Pb x0) (pg Pb x0) Σ0)) ->
+  (m = 0%nat -> 0 < p_tol AP) ->
+  alm_zerofpr Pb prov wm_supplied Clb Cub l1 split dir has_initial stop_req time_up outer_oot PP AP ls_fuel inner_fuel outer_fuel nanv Σ0 y0 x0
+    = Some co ->
+  f_status (co_final co) = Converged ->
+  let x := co_x co in
+  let y := f_y (co_final co) in
+  length x = n /\ length y = m /\
+  (* x in C *)
+  (forall i, (i < n)%nat -> in_box (nth i Clb None) (nth i Cub None) (nth i x 0)) /\
+  (* stationarity: -(∇f(x) + ∇g(x) y) within `tolerance` (max norm) of the normal cone of C at x *)
+  (forall i, (i < n)%nat -> exists r,
+      (forall u, in_box (nth i Clb None) (nth i Cub None) u -> r * (u - nth i x 0) <= 0) /\
+      Rabs (- nth i (vadd (pgrad_f Pb x) (pgrad_g_prod Pb x y)) 0 - r) <= p_tol AP) /\
+  (* feasibility: dist∞(g(x), D) <= dual_tolerance *)
+  (forall i, (i < m)%nat -> exists z,
+      in_box (nth i (plb Pb) None) (nth i (pub Pb) None) z /\ Rabs (nth i (pg Pb x) 0 - z) <= p_dual_tol AP) /\
+  (* complementarity: y_i > 0 (< 0) only where g_i(x) is within dual_tolerance of its upper (lower) bound *)
+  (forall i, (i < m)%nat ->
+      (0 < nth i y 0 -> exists u, nth i (pub Pb) None = Some u /\ Rabs (nth i (pg Pb x) 0 - u) <= p_dual_tol AP) /\
+      (nth i y 0 < 0 -> exists l, nth i (plb Pb) None = Some l /\ Rabs (nth i (pg Pb x) 0 - l) <= p_dual_tol AP)).
+Proof. exact alm_zerofpr_converged_is_kkt. Qed.
+Print Assumptions C01_alm_zerofpr_converged_is_kkt.
+
+Example C01_alm_zerofpr_nonvacuous :
+  exists co,
+    alm_zerofpr nvPb nvprov (fun _ => []) [Some 0] [Some 1] [] 0 nv_zdir false nv_never nv_never (fun _ => false) nvPP nvAP 5 5 3 0 None [0] [0] = Some co /\
+    f_status (co_final co) = Converged /\ co_x co = [0] /\ f_y (co_final co) = [0].
+Proof. exact nv_zconverged. Qed.
+
+(* (7) THE SHIPPED DEFAULT STACK, generically: ALMSolver<PANOCSolver<DirectionProviderT>> for EVERY provider (Directions.dirops: a state
+   machine initialize / update / apply / changed_γ / reset) that keeps dimensions.  The composed model AlmPanocDir.alm_panoc_dir threads
+   (cumulative counters, provider state) through the inner solves: the provider PERSISTS across inner solves as the C++ object does and
+   `initialize` is called at k = 0 of every inner solve.  Obtained from the refinement theorem PANOCDIR_refines_oracle_model (every
+   provider run IS a run of the oracle model for the oracle "j-th apply result of that run"), the PANOC inner contract (2) — whose
+   direction-length hypothesis is DISCHARGED by the length invariant of PanocDirLen.v — and the generic lemma (4).
+   No hypothesis on the provider state d0 the first solve starts from, nor on what an inner solve inherits from the previous one. *)
+Theorem C01_alm_panoc_provider_converged_is_kkt :
+  forall (Pb : problem (T:=R)) (prov : fn -> bool) (wm_supplied : list R -> list R) (Clb Cub : list (option R)) (l1 : list R)
+    (split : nat) (D : Type) (ops : dirops R D) (stop_req time_up : counters -> bool)
+    (outer_oot : nat -> bool) (PP : Panoc.params (T:=R)) (AP : alm_params (T:=R)) (ls_fuel inner_fuel n m : nat),
+  provider_ok Pb prov ->
+  grad_g_prod_empty_ok Pb ->
+  l1 = [] ->
+  p_crit PP = ApproxKKT ->
+  0 < p_Lgamma PP ->
+  0 < p_L0 PP \/ 0 < p_Lmin PP <= p_Lmax PP ->
+  length Clb = n -> length Cub = n -> Forall2 box_ne Clb Cub ->
+  (forall x, length x = n -> length (pgrad_f Pb x) = n) ->
+  (forall x y, length x = n -> length (pgrad_g_prod Pb x y) = n) ->
+  (forall x, length x = n -> length (pg Pb x) = m) ->
+  length (plb Pb) = m -> length (pub Pb) = m -> Forall2 box_ne (plb Pb) (pub Pb) ->
+  (* the provider keeps dimensions: some predicate Iv on its states is established by initialize, preserved by the other operations,
+     and under it apply returns — when it returns true — a vector of length n; each when handed vectors of length n *)
+  forall (Iv : D -> Prop),
+  (forall d y S γ x xh p g d', length x = n -> length xh = n -> length p = n -> length g = n ->
+     d_initialize D ops d y S γ x xh p g = Some d' -> Iv d') ->
+  (forall d γ γn x xn p pn g gn, Iv d ->
+     length x = n -> length xn = n -> length p = n -> length pn = n -> length g = n -> length gn = n ->
+     Iv (snd (d_update D ops d γ γn x xn p pn g gn))) ->
+  (forall d γ x xh p g q b q' d', Iv d -> length x = n -> length xh = n -> length p = n -> length g = n ->
+     d_apply D ops d γ x xh p g q = Some (b, q', d') -> Iv d' /\ (b = true -> length q' = n)) ->
+  (forall d a b, Iv d -> Iv (d_changed_gamma D ops d a b)) ->
+  (forall d, Iv d -> Iv (d_reset D ops d)) ->
+  forall (d0 : D) (outer_fuel : nat) (nanv : R) (Σ0 : option (list R)) (y0 x0 : list R) (co : cout (counters * D) (resultD D)),
+  length x0 = n -> length y0 = m ->
+  Alm.p_max_iter AP <> 0%nat ->
+  (m <> 0%nat -> sigma_inv AP m (initial_sigma AP m (pf Pb x0) (pg Pb x0) Σ0)) ->
+  (m = 0%nat -> 0 < p_tol AP) ->
+  alm_panoc_dir Pb prov wm_supplied Clb Cub l1 split D ops stop_req time_up outer_oot PP AP ls_fuel inner_fuel d0 outer_fuel nanv Σ0 y0 x0
+    = Some co ->
+  f_status (co_final co) = Converged ->
+  let x := co_x co in
+  let y := f_y (co_final co) in
+  length x = n /\ length y = m /\
+  (* x in C *)
+  (forall i, (i < n)%nat -> in_box (nth i Clb None) (nth i Cub None) (nth i x 0)) /\
+  (* stationarity: -(∇f(x) + ∇g(x) y) within `tolerance` (max norm) of the normal cone of C at x *)
+  (forall i, (i < n)%nat -> exists r,
+      (forall u, in_box (nth i Clb None) (nth i Cub None) u -> r * (u - nth i x 0) <= 0) /\
+      Rabs (- nth i (vadd (pgrad_f Pb x) (pgrad_g_prod Pb x y)) 0 - r) <= p_tol AP) /\
+  (* feasibility: dist∞(g(x), D) <= dual_tolerance *)
+  (forall i, (i < m)%nat -> exists z,
+      in_box (nth i (plb Pb) None) (nth i (pub Pb) None) z /\ Rabs (nth i (pg Pb x) 0 - z) <= p_dual_tol AP) /\
+  (* complementarity: y_i > 0 (< 0) only where g_i(x) is within dual_tolerance of its upper (lower) bound *)
+  (forall i, (i < m)%nat ->
+      (0 < nth i y 0 -> exists u, nth i (pub Pb) None = Some u /\ Rabs (nth i (pg Pb x) 0 - u) <= p_dual_tol AP) /\
+      (nth i y 0 < 0 -> exists l, nth i (plb Pb) None = Some l /\ Rabs (nth i (pg Pb x) 0 - l) <= p_dual_tol AP)).
+Proof. exact alm_panoc_dir_converged_is_kkt. Qed.
+Print Assumptions C01_alm_panoc_provider_converged_is_kkt.
+
+(* LBFGSDirection keeps dimensions (from Lbfgs.v / LbfgsProofs.v: the ring buffer invariant, every stored pair (s, y) has length n, and
+   apply is the two-loop recursion over the stored pairs — so it returns a vector of the length of p), for every LBFGSParams *)
+Theorem C01_lbfgs_direction_keeps_dimensions : forall (n : nat) (pw : R -> R -> R) (LP : Lbfgs.params R) (rescale : bool),
+  let ops := lbfgs_dir n pw LP rescale in let Iv := lbfgs_Iv n LP in
+  (forall d y S γ x xh p g d', length x = n -> length xh = n -> length p = n -> length g = n ->
+     d_initialize _ ops d y S γ x xh p g = Some d' -> Iv d') /\
+  (forall d γ γn x xn p pn g gn, Iv d ->
+     length x = n -> length xn = n -> length p = n -> length pn = n -> length g = n -> length gn = n ->
+     Iv (snd (d_update _ ops d γ γn x xn p pn g gn))) /\
+  (forall d γ x xh p g q b q' d', Iv d -> length x = n -> length xh = n -> length p = n -> length g = n ->
+     d_apply _ ops d γ x xh p g q = Some (b, q', d') -> Iv d' /\ (b = true -> length q' = n)) /\
+  (forall d a b, Iv d -> Iv (d_changed_gamma _ ops d a b)) /\
+  (forall d, Iv d -> Iv (d_reset _ ops d)).
+Proof. exact lbfgs_dir_keeps_dimensions. Qed.
+Print Assumptions C01_lbfgs_direction_keeps_dimensions.
+
+(* (8) THE DEFAULT STACK ALMSolver<PANOCSolver<LBFGSDirection>>: no hypothesis about the direction at all — every LBFGSParams (memory,
+   CBFGS, both step-size policies, force_pos_def), rescale_on_step_size_changes on/off, std::pow arbitrary, any provider state d0 to
+   start from.  (memory < 1 makes `initialize` throw: the model then has no completed run, the statement is about completed runs.) *)
+Theorem C01_alm_panoc_lbfgs_converged_is_kkt :
+  forall (Pb : problem (T:=R)) (prov : fn -> bool) (wm_supplied : list R -> list R) (Clb Cub : list (option R)) (l1 : list R)
+    (split : nat) (pw : R -> R -> R) (LP : Lbfgs.params R) (rescale : bool) (stop_req time_up : counters -> bool)
+    (outer_oot : nat -> bool) (PP : Panoc.params (T:=R)) (AP : alm_params (T:=R)) (ls_fuel inner_fuel n m : nat),
+  provider_ok Pb prov ->
+  grad_g_prod_empty_ok Pb ->
+  l1 = [] ->
+  p_crit PP = ApproxKKT ->
+  0 < p_Lgamma PP ->
+  0 < p_L0 PP \/ 0 < p_Lmin PP <= p_Lmax PP ->
+  length Clb = n -> length Cub = n -> Forall2 box_ne Clb Cub ->
+  (forall x, length x = n -> length (pgrad_f Pb x) = n) ->
+  (forall x y, length x = n -> length (pgrad_g_prod Pb x y) = n) ->
+  (forall x, length x = n -> length (pg Pb x) = m) ->
+  length (plb Pb) = m -> length (pub Pb) = m -> Forall2 box_ne (plb Pb) (pub Pb) ->
+  forall (d0 : Lbfgs.state R) (outer_fuel : nat) (nanv : R) (Σ0 : option (list R)) (y0 x0 : list R)
+    (co : cout (counters * Lbfgs.state R) (resultD (Lbfgs.state R))),
+  length x0 = n -> length y0 = m ->
+  Alm.p_max_iter AP <> 0%nat ->
+  (m <> 0%nat -> sigma_inv AP m (initial_sigma AP m (pf Pb x0) (pg Pb x0) Σ0)) ->
+  (m = 0%nat -> 0 < p_tol AP) ->
+  alm_panoc_dir Pb prov wm_supplied Clb Cub l1 split (Lbfgs.state R) (lbfgs_dir n pw LP rescale) stop_req time_up outer_oot PP AP
+                ls_fuel inner_fuel d0 outer_fuel nanv Σ0 y0 x0 = Some co ->
+  f_status (co_final co) = Converged ->
+  let x := co_x co in
+  let y := f_y (co_final co) in
+  length x = n /\ length y = m /\
+  (* x in C *)
+  (forall i, (i < n)%nat -> in_box (nth i Clb None) (nth i Cub None) (nth i x 0)) /\
+  (* stationarity: -(∇f(x) + ∇g(x) y) within `tolerance` (max norm) of the normal cone of C at x *)
+  (forall i, (i < n)%nat -> exists r,
+      (forall u, in_box (nth i Clb None) (nth i Cub None) u -> r * (u - nth i x 0) <= 0) /\
+      Rabs (- nth i (vadd (pgrad_f Pb x) (pgrad_g_prod Pb x y)) 0 - r) <= p_tol AP) /\
+  (* feasibility: dist∞(g(x), D) <= dual_tolerance *)
+  (forall i, (i < m)%nat -> exists z,
+      in_box (nth i (plb Pb) None) (nth i (pub Pb) None) z /\ Rabs (nth i (pg Pb x) 0 - z) <= p_dual_tol AP) /\
+  (* complementarity: y_i > 0 (< 0) only where g_i(x) is within dual_tolerance of its upper (lower) bound *)
+  (forall i, (i < m)%nat ->
+      (0 < nth i y 0 -> exists u, nth i (pub Pb) None = Some u /\ Rabs (nth i (pg Pb x) 0 - u) <= p_dual_tol AP) /\
+      (nth i y 0 < 0 -> exists l, nth i (plb Pb) None = Some l /\ Rabs (nth i (pg Pb x) 0 - l) <= p_dual_tol AP)).
+Proof. exact alm_panoc_lbfgs_converged_is_kkt. Qed.
+Print Assumptions C01_alm_panoc_lbfgs_converged_is_kkt.
+
+(* non-vacuity of (7)/(8): the instance of C01_alm_panoc_nonvacuous with LBFGSDirection (memory 5) as the provider, started from the
+   default-constructed (unsized) provider: the composed model returns Converged after one outer iteration, x = 0, y = 0 *)
+Example C01_alm_panoc_lbfgs_nonvacuous :
+  exists co,
+    alm_panoc_dir nvPb nvprov (fun _ => []) [Some 0] [Some 1] [] 0 (Lbfgs.state R) (lbfgs_dir 1 nv_pw nvLP false) nv_never nv_never (fun _ => false)
+                  nvPP nvAP 5 5 (lbfgs_unsized (T:=R)) 3 0 None [0] [0] = Some co /\
+    f_status (co_final co) = Converged /\ co_x co = [0] /\ f_y (co_final co) = [0].
+Proof. exact nvD_converged. Qed.
+
+(* (9) PANTR and FISTA *)
+(* END-TO-END for ALM∘PANTR (composed executable model AlmPantr.alm_pantr): same conclusion as C01_alm_panoc_converged_is_kkt.
+   Hypotheses, each genuinely needed:
+     provider_ok, grad_g_prod_empty_ok, l1 = []            as for PANOC
+     stop_crit = ApproxKKT, 0 < Lγ                          as for PANOC (of PANTRParams)
+     0 < L_0  \/  0 < L_min <= L_max                        PANTR uses PANOC's initial Lipschitz estimate: L > 0, hence γ > 0
+     the dimension hypotheses                               as for PANOC
+     direction.apply leaves an n-vector in q whenever the FBS iterate it is handed sits at an n-vector (the accepted candidate is x̂ₖ + q)
+     ALM hypotheses                                         as for PANOC
+   NOT needed: anything on the TR radii / ratio thresholds, on the model value q_model, on compute_ratio_using_new_stepsize,
+   update_direction_on_prox_step, disable_acceleration, on eval_grad_L's / eval_grad_ψ's / eval_ψ's output lengths, on fuel. *)
+Theorem C01_alm_pantr_converged_is_kkt :
+  forall (Pb : problem (T:=R)) (prov : fn -> bool) (wm_supplied : list R -> list R) (Clb Cub : list (option R)) (l1 : list R)
+    (split : nat) (tr_dir : nat -> iterate (T:=R) -> R -> list R * R) (has_initial : bool) (stop_req time_up : counters -> bool)
+    (outer_oot : nat -> bool) (TP : trparams (T:=R)) (AP : alm_params (T:=R)) (bt_fuel inner_fuel n m : nat),
+  provider_ok Pb prov ->
+  grad_g_prod_empty_ok Pb ->
+  l1 = [] ->
+  p_crit (tp_base TP) = ApproxKKT ->
+  0 < p_Lgamma (tp_base TP) ->
+  0 < p_L0 (tp_base TP) \/ 0 < p_Lmin (tp_base TP) <= p_Lmax (tp_base TP) ->
+  length Clb = n -> length Cub = n -> Forall2 box_ne Clb Cub ->
+  (forall x, length x = n -> length (pgrad_f Pb x) = n) ->
+  (forall x y, length x = n -> length (pgrad_g_prod Pb x y) = n) ->
+  (forall x, length x = n -> length (pg Pb x) = m) ->
+  length (plb Pb) = m -> length (pub Pb) = m -> Forall2 box_ne (plb Pb) (pub Pb) ->
+  (forall j px Δ, length (ix px) = n -> length (fst (tr_dir j px Δ)) = n) ->
+  forall (outer_fuel : nat) (nanv : R) (Σ0 : option (list R)) (y0 x0 : list R) (co : cout counters (tresult (T:=R))),
+  length x0 = n -> length y0 = m ->
+  Alm.p_max_iter AP <> 0%nat ->
+  (m <> 0%nat -> sigma_inv AP m (initial_sigma AP m (pf Pb x0) (pg Pb x0) Σ0)) ->
+  (m = 0%nat -> 0 < p_tol AP) ->
+  alm_pantr Pb prov wm_supplied Clb Cub l1 split tr_dir has_initial stop_req time_up outer_oot TP AP bt_fuel inner_fuel outer_fuel nanv Σ0 y0 x0
+    = Some co ->
+  f_status (co_final co) = Converged ->
+  let x := co_x co in
+  let y := f_y (co_final co) in
+  length x = n /\ length y = m /\
+  (* x in C *)
+  (forall i, (i < n)%nat -> in_box (nth i Clb None) (nth i Cub None) (nth i x 0)) /\
+  (* stationarity: -(∇f(x) + ∇g(x) y) within `tolerance` (max norm) of the normal cone of C at x *)
+  (forall i, (i < n)%nat -> exists r,
+      (forall u, in_box (nth i Clb None) (nth i Cub None) u -> r * (u - nth i x 0) <= 0) /\
+      Rabs (- nth i (vadd (pgrad_f Pb x) (pgrad_g_prod Pb x y)) 0 - r) <= p_tol AP) /\
+  (* feasibility: dist∞(g(x), D) <= dual_tolerance *)
+  (forall i, (i < m)%nat -> exists z,
+      in_box (nth i (plb Pb) None) (nth i (pub Pb) None) z /\ Rabs (nth i (pg Pb x) 0 - z) <= p_dual_tol AP) /\
+  (* complementarity: y_i > 0 (< 0) only where g_i(x) is within dual_tolerance of its upper (lower) bound *)
+  (forall i, (i < m)%nat ->
+      (0 < nth i y 0 -> exists u, nth i (pub Pb) None = Some u /\ Rabs (nth i (pg Pb x) 0 - u) <= p_dual_tol AP) /\
+      (nth i y 0 < 0 -> exists l, nth i (plb Pb) None = Some l /\ Rabs (nth i (pg Pb x) 0 - l) <= p_dual_tol AP)).
+Proof. exact alm_pantr_converged_is_kkt. Qed.
+Print Assumptions C01_alm_pantr_converged_is_kkt.
+
+(* END-TO-END for ALM∘FISTA (composed executable model AlmFista.alm_fista): same conclusion.
+   Hypotheses, each genuinely needed:
+     provider_ok, grad_g_prod_empty_ok, l1 = [], stop_crit = ApproxKKT, 0 < Lγ, dimensions, ALM hypotheses      as for PANOC
+     0 < L_min <= L_max  \/  (L_min <> L_max /\ 0 < L_0)    the initial L is positive, hence γ > 0:  L = L_max in fixed-step mode
+                                                            (L_min == L_max), else L_0 if L_0 > 0, else the estimate clamped to [L_min, L_max]
+   NOT needed: anything on disable_acceleration, on fixed-step vs backtracking mode beyond the line above, on max_no_progress,
+   on eval_ψ's / eval_grad_L's output lengths, on the stop / clock oracles, on fuel. *)
+Theorem C01_alm_fista_converged_is_kkt :
+  forall (Pb : problem (T:=R)) (prov : fn -> bool) (Clb Cub : list (option R)) (l1 : list R)
+    (split : nat) (stop_req time_up : fcounters -> bool)
+    (outer_oot : nat -> bool) (FP : fparams (T:=R)) (AP : alm_params (T:=R)) (bt_fuel inner_fuel n m : nat),
+  provider_ok Pb prov ->
+  grad_g_prod_empty_ok Pb ->
+  l1 = [] ->
+  fp_crit FP = ApproxKKT ->
+  0 < fp_Lgamma FP ->
+  0 < fp_Lmin FP <= fp_Lmax FP \/ (fp_Lmin FP <> fp_Lmax FP /\ 0 < fp_L0 FP) ->
+  length Clb = n -> length Cub = n -> Forall2 box_ne Clb Cub ->
+  (forall x, length x = n -> length (pgrad_f Pb x) = n) ->
+  (forall x y, length x = n -> length (pgrad_g_prod Pb x y) = n) ->
+  (forall x, length x = n -> length (pg Pb x) = m) ->
+  length (plb Pb) = m -> length (pub Pb) = m -> Forall2 box_ne (plb Pb) (pub Pb) ->
+  forall (outer_fuel : nat) (nanv : R) (Σ0 : option (list R)) (y0 x0 : list R) (co : cout fcounters (fresult (T:=R))),
+  length x0 = n -> length y0 = m ->
+  Alm.p_max_iter AP <> 0%nat ->
+  (m <> 0%nat -> sigma_inv AP m (initial_sigma AP m (pf Pb x0) (pg Pb x0) Σ0)) ->
+  (m = 0%nat -> 0 < p_tol AP) ->
+  alm_fista Pb prov Clb Cub l1 split stop_req time_up outer_oot FP AP bt_fuel inner_fuel outer_fuel nanv Σ0 y0 x0 = Some co ->
+  f_status (co_final co) = Converged ->
+  let x := co_x co in
+  let y := f_y (co_final co) in
+  length x = n /\ length y = m /\
+  (forall i, (i < n)%nat -> in_box (nth i Clb None) (nth i Cub None) (nth i x 0)) /\
+  (forall i, (i < n)%nat -> exists r,
+      (forall u, in_box (nth i Clb None) (nth i Cub None) u -> r * (u - nth i x 0) <= 0) /\
+      Rabs (- nth i (vadd (pgrad_f Pb x) (pgrad_g_prod Pb x y)) 0 - r) <= p_tol AP) /\
+  (forall i, (i < m)%nat -> exists z,
+      in_box (nth i (plb Pb) None) (nth i (pub Pb) None) z /\ Rabs (nth i (pg Pb x) 0 - z) <= p_dual_tol AP) /\
+  (forall i, (i < m)%nat ->
+      (0 < nth i y 0 -> exists u, nth i (pub Pb) None = Some u /\ Rabs (nth i (pg Pb x) 0 - u) <= p_dual_tol AP) /\
+      (nth i y 0 < 0 -> exists l, nth i (plb Pb) None = Some l /\ Rabs (nth i (pg Pb x) 0 - l) <= p_dual_tol AP)).
+Proof. exact alm_fista_converged_is_kkt. Qed.
+Print Assumptions C01_alm_fista_converged_is_kkt.
+
+(* non-vacuity of the two theorems above: the concrete problem of C01_alm_panoc_nonvacuous (n = 1, m = 1), with PANTR resp. FISTA
+   (backtracking mode, acceleration on) as inner solver: every hypothesis holds and the composed model returns Converged *)
+Example C01_alm_pantr_nonvacuous :
+  (provider_ok nvPb nvprov /\ grad_g_prod_empty_ok nvPb /\ p_crit (tp_base nvTP) = ApproxKKT /\ 0 < p_Lgamma (tp_base nvTP) /\
+   (0 < p_L0 (tp_base nvTP) \/ 0 < p_Lmin (tp_base nvTP) <= p_Lmax (tp_base nvTP)) /\
+   Forall2 box_ne [Some 0] [Some 1] /\ Forall2 box_ne (plb nvPb) (pub nvPb) /\
+   (forall x, length x = 1%nat -> length (pgrad_f nvPb x) = 1%nat) /\ (forall x y, length x = 1%nat -> length (pgrad_g_prod nvPb x y) = 1%nat) /\
+   (forall x, length x = 1%nat -> length (pg nvPb x) = 1%nat) /\
+   (forall j px Δ, length (ix px) = 1%nat -> length (fst (nv_trdir j px Δ)) = 1%nat) /\
+   Alm.p_max_iter nvAP <> 0%nat /\ sigma_inv nvAP 1 (initial_sigma nvAP 1 (pf nvPb [0]) (pg nvPb [0]) None)) /\
+  exists co,
+    alm_pantr nvPb nvprov (fun _ => []) [Some 0] [Some 1] [] 0 nv_trdir false nv_never nv_never (fun _ => false) nvTP nvAP 5 5 3 0 None [0] [0] = Some co /\
+    f_status (co_final co) = Converged /\ co_x co = [0] /\ f_y (co_final co) = [0].
+Proof. exact (conj nv_thypotheses nv_tconverged). Qed.
+Print Assumptions C01_alm_pantr_nonvacuous.
+
+Example C01_alm_fista_nonvacuous :
+  (provider_ok nvPb nvprov /\ grad_g_prod_empty_ok nvPb /\ fp_crit nvFP = ApproxKKT /\ 0 < fp_Lgamma nvFP /\
+   (0 < fp_Lmin nvFP <= fp_Lmax nvFP \/ (fp_Lmin nvFP <> fp_Lmax nvFP /\ 0 < fp_L0 nvFP)) /\
+   Forall2 box_ne [Some 0] [Some 1] /\ Forall2 box_ne (plb nvPb) (pub nvPb) /\
+   (forall x, length x = 1%nat -> length (pgrad_f nvPb x) = 1%nat) /\ (forall x y, length x = 1%nat -> length (pgrad_g_prod nvPb x y) = 1%nat) /\
+   (forall x, length x = 1%nat -> length (pg nvPb x) = 1%nat) /\
+   Alm.p_max_iter nvAP <> 0%nat /\ sigma_inv nvAP 1 (initial_sigma nvAP 1 (pf nvPb [0]) (pg nvPb [0]) None)) /\
+  exists co,
+    alm_fista nvPb nvprov [Some 0] [Some 1] [] 0 nv_fnever nv_fnever (fun _ => false) nvFP nvAP 5 3 3 0 None [0] [0] = Some co /\
+    f_status (co_final co) = Converged /\ co_x co = [0] /\ f_y (co_final co) = [0].
+Proof. exact (conj nv_fhypotheses nv_fconverged). Qed.
+Print Assumptions C01_alm_fista_nonvacuous.
+
+(* (10) REFINEMENT of whole composed runs: every run of the shipped-stack model (ALM ∘ PANOC with ANY stateful provider, any initial
+   provider state) IS a run of the oracle-direction model alm_panoc of (3), for the oracle "the j-th apply call of the whole ALM run
+   (GLOBAL index across inner solves) returned what the provider returned there": same ALM trace (every record), same final statistics
+   and status, same x, same cumulative counters; the inner logs agree up to the q field of τ = 0 records.  So every theorem about
+   alm_panoc that holds for every direction oracle holds for the shipped stacks (lifts PANOCDIR_refines_oracle_model through the
+   composition; (7) is the instance of this transfer for the KKT certificate, proved there directly from the inner contract). *)
+Theorem C01_alm_panoc_provider_refines_oracle_model :
+  forall (Pb : problem (T:=R)) (prov : fn -> bool) (wm_supplied : list R -> list R) (Clb Cub : list (option R)) (l1 : list R)
+    (split : nat) (D : Type) (ops : dirops R D) (stop_req time_up : counters -> bool)
+    (outer_oot : nat -> bool) (PP : Panoc.params (T:=R)) (AP : alm_params (T:=R)) (ls_fuel inner_fuel : nat)
+    (d0 : D) (outer_fuel : nat) (nanv : R) (Σ0 : option (list R)) (y0 x0 : list R) (coD : cout (counters * D) (resultD D)),
+  alm_panoc_dir Pb prov wm_supplied Clb Cub l1 split D ops stop_req time_up outer_oot PP AP ls_fuel inner_fuel d0 outer_fuel nanv Σ0 y0 x0
+    = Some coD ->
+  exists co : cout counters (result (T:=R)),
+    alm_panoc Pb prov wm_supplied Clb Cub l1 split
+              (fun j _ => nth j (traces D (co_logs coD)) None)      (* the oracle: j-th apply result of the whole run *)
+              (d_has_initial D ops) stop_req time_up outer_oot PP AP ls_fuel inner_fuel outer_fuel nanv Σ0 y0 x0 = Some co /\
+    co_trace co = co_trace coD /\ co_final co = co_final coD /\ co_x co = co_x coD /\ co_w co = fst (co_w coD) /\
+    Forall2 (log_sim D) (co_logs coD) (co_logs co).
+Proof. exact alm_panoc_dir_refines. Qed.
+Print Assumptions C01_alm_panoc_provider_refines_oracle_model.
